@@ -57,6 +57,11 @@ def cond_obs(gp):
 
 def observe(domain, action, args, objects):
     op = Operator(action, domain, list(args), objects)
+    return observe_op(op, domain, action, args)
+
+
+def observe_op(op, domain, action, args):
+    """grounds [op] (again, if it was grounded before) and reports what it holds"""
     op.ground()
     out = {"pre": cond_obs(op.grounded_preconditions), "groups": [], "str": str(op)}
     for e in op.grounded_effects:
@@ -196,3 +201,161 @@ def fixture(job):
             probes.append(pr)
     out["probes"] = probes
     return out
+
+
+# ---------------------------------------------------------------------------------------------------------------
+# wave 3: PROCESS-LEVEL SEQUENCES on one parsed Domain whose Action objects are reused and edited in place through the
+# library's own API between groundings.  After every edit the action's CURRENT schema is re-dumped with the library's
+# exporter (DomainExporter.write_action: the text a learner would write out); the model and the spec ground THAT text.
+def _mk_pred(domain, action, name, args, pos):
+    from pddl_plus_parser.models import Predicate as P
+    sig = {}
+    for a in args:
+        if a in domain.constants:
+            sig[a] = domain.constants[a].type
+        else:
+            sig[a] = action.signature[a]
+    return P(name=name, signature=sig, is_positive=bool(pos))
+
+
+def _mk_tree(domain, tokens):
+    from pddl_plus_parser.models import construct_expression_tree
+    return NumericalExpressionTree(construct_expression_tree(tokens, domain.functions))
+
+
+def _pick(items, key, seed):
+    items = sorted(items, key=key)
+    return items[seed % len(items)] if items else None
+
+
+def apply_edit(domain, action, ed):
+    """one in-place edit of the action's schema; returns a description, or None when there was nothing to edit"""
+    kind = ed["edit"]
+    root = action.preconditions.root
+    if kind == "add_pre_lit":
+        action.preconditions.add_condition(_mk_pred(domain, action, ed["name"], ed["args"], ed["pos"]))
+        return kind
+    if kind == "add_pre_group":
+        g = Precondition(ed["op"])
+        for name, args, pos in ed["lits"]:
+            g.add_condition(_mk_pred(domain, action, name, args, pos))
+        action.preconditions.add_condition(g)
+        return kind
+    if kind == "remove_pre_lit":
+        c = _pick([o for o in root.operands if isinstance(o, Predicate)], lambda o: (o.untyped_representation, o.is_positive), ed["seed"])
+        if c is None:
+            return None
+        action.preconditions.remove_condition(c.copy())          # (CompoundPrecondition.remove_condition returns nothing)
+        return kind
+    if kind == "add_pre_num":
+        action.preconditions.add_condition(_mk_tree(domain, ed["tokens"]))
+        return kind
+    if kind == "remove_pre_num":
+        c = _pick([o for o in root.operands if isinstance(o, NumericalExpressionTree)], lambda o: o.to_pddl(), ed["seed"])
+        if c is None:
+            return None
+        action.preconditions.remove_condition(c)
+        return kind
+    if kind == "add_eff_lit":
+        action.discrete_effects.add(_mk_pred(domain, action, ed["name"], ed["args"], ed["pos"]))
+        return kind
+    if kind == "discard_eff_lit":
+        c = _pick(action.discrete_effects, lambda o: (o.untyped_representation, o.is_positive), ed["seed"])
+        if c is None:
+            return None
+        action.discrete_effects.discard(c.copy())
+        return kind
+    if kind == "add_eff_num":
+        action.numeric_effects.add(_mk_tree(domain, ed["tokens"]))
+        return kind
+    if kind == "discard_eff_num":
+        c = _pick(action.numeric_effects, lambda o: o.to_pddl(), ed["seed"])
+        if c is None:
+            return None
+        action.numeric_effects.discard(c)
+        return kind
+    if kind in ("when_add_ante", "when_add_eff"):
+        ce = _pick(action.conditional_effects, str, ed["seed"])
+        if ce is None:
+            return None
+        pred = _mk_pred(domain, action, ed["name"], ed["args"], ed["pos"])
+        if kind == "when_add_ante":
+            ce.antecedents.add_condition(pred)
+        else:
+            ce.discrete_effects.add(pred)
+        return kind
+    if kind == "rename":
+        action.change_signature(dict(ed["map"]))
+        return kind
+    raise ValueError("unknown edit %r" % kind)
+
+
+def sequence(job):
+    """job: domain_text, header_text (the domain text up to and without its actions and its last parenthesis), problem_text,
+    states [problem_text] (for 'app' steps), steps [{kind: ground|app|edit, ...}].
+    Returns epochs [{text, nums, vocab}] (the domain as exported after each edit; epoch 0 = as parsed) and one result per step."""
+    from pddl_plus_parser.exporters import DomainExporter
+    from pddl_plus_parser.models import State
+    out = {}
+    dpath = write_tmp(job["domain_text"], ".pddl")
+    ppath = write_tmp(job["problem_text"], ".pddl")
+    spaths = [write_tmp(t, ".pddl") for t in job.get("states", [])]
+    try:
+        try:
+            domain = DomainParser(dpath).parse_domain()
+        except Exception as e:  # noqa
+            out["parse_raised"] = exc(e)
+            return out
+        try:
+            problem = ProblemParser(ppath, domain).parse_problem()
+            sproblems = [ProblemParser(sp, domain).parse_problem() for sp in spaths]
+        except Exception as e:  # noqa
+            out["problem_raised"] = exc(e)
+            return out
+        exporter = DomainExporter()
+
+        def snapshot():
+            text = job["header_text"] + "\n" + "\n".join(exporter.write_action(a) for a in domain.actions.values()) + ")"
+            return {"text": text, "nums": number_table(text), "vocab": vocab(domain)}
+        epochs = [snapshot()]
+        kept = {}
+        results = []
+        for st in job["steps"]:
+            action = domain.actions.get(st["action"])
+            if st["kind"] == "edit":
+                try:
+                    done = apply_edit(domain, action, st)
+                except Exception as e:  # noqa
+                    results.append({"edit_raised": exc(e)})
+                    continue
+                epochs.append(snapshot())            # always: the text is what the schema IS now, whatever the edit did
+                results.append({"done": done, "epoch": len(epochs) - 1})
+                continue
+            key = (st["action"], tuple(st["args"]))
+            r = {"epoch": len(epochs) - 1}
+            try:
+                if st.get("mode") == "reuse" and key in kept:
+                    op = kept[key]
+                    op.grounded = False
+                    r["reused"] = True
+                else:
+                    op = Operator(action, domain, list(st["args"]), problem.objects)
+                    kept[key] = op
+                if st["kind"] == "ground":
+                    r["obs"] = {"value": observe_op(op, domain, action, st["args"])}
+                else:
+                    sp = sproblems[st["state"]]
+                    state = State({k: set(v) for k, v in sp.initial_state_predicates.items()},
+                                  {k: v.copy() for k, v in sp.initial_state_fluents.items()}, is_init=True)
+                    r["app"] = {"value": bool(op.is_applicable(state))}
+            except Exception as e:  # noqa
+                r["obs" if st["kind"] == "ground" else "app"] = exc(e)
+            results.append(r)
+        out["epochs"] = epochs
+        out["steps"] = results
+        return out
+    finally:
+        dpath.unlink()
+        ppath.unlink()
+        for sp in spaths:
+            sp.unlink()
